@@ -83,11 +83,12 @@ LoadProc(pid, r, oldp) ==
              !.ev = [start |-> SatAdd(@.start, starts), term |-> SatAdd(@.term, comps + errs),
                      kinds |-> @.kinds \cup (IF comps > 0 THEN {"complete"} ELSE {})
                                        \cup (IF errs > 0 THEN {"error"} ELSE {})],
-             !.viol = @ \cup BadWrites(pid, r, oldp)]
+             !.viol = @ \cup BadWrites(pid, r, oldp),
+             !.pure = @ /\ ~(r.a = "Act" /\ r.pid = pid /\ r.res = "ok" /\ r.kind # "complete")]
 
 FreshProc(mi, inp) ==
   [st |-> "started", mi |-> mi, inp |-> inp, ts |-> <<>>, ps |-> "none", perr |-> NIL,
-   nseq |-> 1, ev |-> [start |-> 0, term |-> 0, kinds |-> {}], viol |-> {}]
+   nseq |-> 1, ev |-> [start |-> 0, term |-> 0, kinds |-> {}], viol |-> {}, pure |-> TRUE]
 
 KeyOrNo(r) == IF "t" \in DOMAIN r THEN r.t ELSE NoKey
 
